@@ -8,7 +8,7 @@ args = sys.argv[1:]
 tier = "quick"
 if "--tier" in args:
     i = args.index("--tier"); tier = args[i + 1]; del args[i:i + 2]
-patch, ids = args[0], args[1:]
+patch, ids = os.path.abspath(args[0]), args[1:]
 st = subprocess.run(["git", "-C", REPO, "status", "--porcelain", "--untracked-files=no"], capture_output=True, text=True).stdout
 if st.strip():
     print(REPO, "is not clean:", st); sys.exit(2)
